@@ -4,46 +4,39 @@
     agent_consume_next_rfc4571_chunk, append_buffer_to_input_messages, component_io_cb / nice_agent_recv_messages loops).
     [ctl] = the STUN demultiplexer consumed the frame, [gate] = the source address is a verified peer. *)
 From Coq Require Import ZArith List Bool.
-From Nice Require Import Stream.StreamBase Data.FramingModel Data.SendProofs Data.RecvProofs Data.RecvMsgProofs Data.E2EProofs.
+From Nice Require Import Stream.StreamBase Data.FramingModel Data.SendProofs Data.RecvProofs Data.RecvMsgProofs Data.E2EProofs Data.BytestreamProofs.
 Import ListNotations.
 Local Open Scope Z_scope.
 
 (* ------------------------------------------------------------------ sender *)
 
-(** Whenever the framing loop does not read outside a caller buffer, the vectors it hands to the socket layer are,
-    frame by frame, the 2-byte big-endian length followed by the next (at most 0xF800-byte) piece of the message:
-    all message sizes, all scatter layouts (zero-length buffers included). *)
-Theorem C02_send_frames_correct_except_overread : forall bufs vs, sumlen bufs < W64 ->
-  send_frames bufs = Some vs -> map (@concat Z) vs = map SendProofs.frame_of (pieces (concat bufs)).
-Proof. exact send_frames_correct. Qed.
+(** For ALL message sizes and ALL scatter layouts (zero-length buffers included) the framing loop reads only inside the
+    caller's buffers (no Fault), and the vectors it hands to the socket layer are, frame by frame, the 2-byte big-endian
+    length followed by the next (at most 0xF800-byte) piece of the message, as header :: slices of the buffers.
+    (Unconditional since fix f9b160b.) *)
+Theorem C02_send_frames_correct : forall bufs, sumlen bufs < W64 ->
+  exists vs, send_frames bufs = Some vs /\ map (@concat Z) vs = map SendProofs.frame_of (pieces (concat bufs)) /\
+    Forall (fun v => exists p sl, v = hdr (lenZ p) :: sl /\ concat sl = p /\ 0 < lenZ p <= FMAX) vs.
+Proof. exact send_frames_total. Qed.
 
-Theorem C02_send_frames_shape : forall bufs vs, sumlen bufs < W64 -> send_frames bufs = Some vs ->
-  Forall (fun v => exists p sl, v = hdr (lenZ p) :: sl /\ concat sl = p /\ 0 < lenZ p <= FMAX) vs.
-Proof. exact send_frames_shape. Qed.
+(** Regression of the repaired defect: the copy loop as it was (MIN (size, packet_len) at buffer + offset_in_buffer)
+    reads past the first buffer for [63488][100]; the repaired one takes nothing from it and 100 bytes from the next. *)
+Theorem C02_send_copy_loop_regression :
+  let bufs := [repZ 7 (Z.to_nat 63488); repZ 9 (Z.to_nat 100)] in
+  (let '(oib, cur, rest) := find_buf bufs 63488 0 in (oib, cur, length rest)) = (63488, 63488, 2%nat) /\
+  copy_loop_before_fix bufs 63488 100 = None /\
+  (match copy_loop bufs 63488 100 with Some (sl, tot) => Some (map lenZ sl, tot) | None => None end) = Some ([0; 100], 100).
+Proof. exact copy_loop_regression_boundary. Qed.
 
-(** The exact side condition: no over-read iff every frame after the first lies inside one caller buffer
-    (and does not start at that buffer's very end). *)
-Theorem C02_send_frames_safe_iff : forall bufs, sumlen bufs < W64 ->
-  ((exists vs, send_frames bufs = Some vs) <-> split_safe bufs).
-Proof. exact send_frames_safe_iff. Qed.
+Theorem C02_send_frames_regression_boundary :
+  (match send_frames [repZ 7 (Z.to_nat 63488); repZ 9 (Z.to_nat 100)] with Some vs => map (map lenZ) vs | None => [] end)
+    = [[2; 63488; 0]; [2; 0; 100]].
+Proof. exact send_frames_regression_boundary. Qed.
 
-Theorem C02_send_frames_small : forall bufs, sumlen bufs <= FMAX -> exists vs, send_frames bufs = Some vs.
-Proof. exact send_frames_small. Qed.
-
-Theorem C02_send_frames_single : forall b : bytes, lenZ b < W64 -> exists vs, send_frames [b] = Some vs.
-Proof. exact send_frames_single. Qed.
-
-(** The defect (reproduced on the real code, ASan heap-buffer-overflow READ): a message above 0xF800 bytes whose
-    split point coincides with a buffer boundary, or whose second frame runs from one buffer into the next. *)
-Theorem C02_send_frames_refuted : exists bufs, sumlen bufs <= 65535 /\ length bufs = 2%nat /\ send_frames bufs = None.
-Proof. exact send_frames_refuted. Qed.
-
-Theorem C02_send_frames_refuted_inside : exists bufs, sumlen bufs <= 70000 /\ send_frames bufs = None.
-Proof. exact send_frames_refuted_inside. Qed.
-
-Theorem C02_send_frames_boundary_fault : forall b1 b2 : bytes,
-  lenZ b1 = FMAX -> 0 < lenZ b2 -> lenZ b1 + lenZ b2 < W64 -> send_frames [b1; b2] = None.
-Proof. exact send_frames_boundary_fault. Qed.
+Theorem C02_send_frames_regression_inside :
+  (match send_frames [repZ 1 (Z.to_nat 63000); repZ 2 (Z.to_nat 1000); repZ 3 (Z.to_nat 5000)] with
+   | Some vs => map (map lenZ) vs | None => [] end) = [[2; 63000; 488; 0]; [2; 512; 5000]].
+Proof. exact send_frames_regression_inside. Qed.
 
 (** first frame sent unreliably (may be refused whole), the others reliably; a refused first frame hands nothing else over *)
 Theorem C02_send_message_flags : forall bufs fs rs c e, sumlen bufs < W64 -> send_message bufs [] = Some (fs, rs, c, e) ->
@@ -58,7 +51,7 @@ Proof. exact send_message_blocked. Qed.
 
 (** several messages in one call: all counted, the wire carries their frames in order *)
 Theorem C02_send_api_all : forall bufss,
-  Forall (fun b => sumlen b < W64 /\ 0 < sumlen b /\ split_safe b) bufss -> bufss <> [] ->
+  Forall (fun b => sumlen b < W64 /\ 0 < sumlen b) bufss -> bufss <> [] ->
   exists fss, send_api bufss [] = Some (fss, Z.of_nat (length bufss)) /\
     concat (map wire_of fss) = concat (map (fun b => concat (map SendProofs.frame_of (pieces (concat b)))) bufss).
 Proof. exact send_api_all. Qed.
@@ -132,8 +125,8 @@ Proof. exact cb_session_two_cuts. Qed.
 
 (* ------------------------------------------------------------------ sender and receiver composed *)
 
-Theorem C02_tcp_end_to_end_except_overread : forall (ctl : bytes -> bool) (msgs : list (list bytes)),
-  Forall (fun b => sumlen b < W64 /\ 0 < sumlen b /\ split_safe b /\ bytes_ok (concat b)) msgs -> msgs <> [] ->
+Theorem C02_tcp_end_to_end : forall (ctl : bytes -> bool) (msgs : list (list bytes)),
+  Forall (fun b => sumlen b < W64 /\ 0 < sumlen b /\ bytes_ok (concat b)) msgs -> msgs <> [] ->
   exists fss, send_api msgs [] = Some (fss, Z.of_nat (length msgs)) /\
     forall n sc s' k' ds,
       cb_session false ctl true n rst0 {| pend := concat (map wire_of fss); script := sc |} = Some (s', k', ds, false) ->
@@ -142,7 +135,7 @@ Theorem C02_tcp_end_to_end_except_overread : forall (ctl : bytes -> bool) (msgs 
 Proof. exact tcp_end_to_end. Qed.
 
 Theorem C02_tcp_end_to_end_all_delivered : forall (ctl : bytes -> bool) (msgs : list (list bytes)),
-  Forall (fun b => sumlen b < W64 /\ 0 < sumlen b /\ split_safe b /\ bytes_ok (concat b)) msgs -> msgs <> [] ->
+  Forall (fun b => sumlen b < W64 /\ 0 < sumlen b /\ bytes_ok (concat b)) msgs -> msgs <> [] ->
   Forall (fun b => Forall (fun p => ctl p = false) (pieces (concat b))) msgs ->
   exists fss, send_api msgs [] = Some (fss, Z.of_nat (length msgs)) /\
     forall n sc s' k' ds,
@@ -210,8 +203,15 @@ Proof. exact shared_reassembly_refuted. Qed.
 
 (* ------------------------------------------------------------------ bytestream-tcp *)
 
-(** The defect (reproduced on the real code: nice_agent_recv_messages never returns, agent lock held): in bytestream mode a
-    caller message of zero total capacity makes the inner loop of component_io_cb spin -- it runs out of ANY fuel. *)
-Theorem C02_bytestream_zero_capacity_spins_refuted : forall fuel acc,
-  rel_inner true ctl1 true fuel spin_s spin_k (m_bufs zero_msg) acc = None.
-Proof. exact bytestream_zero_capacity_spins. Qed.
+(** After fix 163ebb1: a frame for the application is pending and the caller's remaining buffers -- any layout -- have
+    zero total size: the inner loop of component_io_cb leaves with would-block after one call, whatever the fuel; nothing
+    was consumed (the frame is still whole and unconsumed in the reassembly buffer), nothing was added for the caller. *)
+Theorem C02_bytestream_zero_capacity_would_block : forall ctl gate s k bufs acc fuel,
+  Inv s -> whole (unc s) = true -> dropped ctl gate (payload_of (unc s)) = false -> sumlen bufs = 0 ->
+  exists s', rel_inner true ctl gate (S fuel) s k bufs acc = Some (s', k, acc, RWouldBlock) /\
+    r_buf s' = r_buf s /\ r_fo s' = r_fo s /\ r_fs s' = r_fs s /\ r_cs s' = 0 /\ unc s' = unc s.
+Proof. exact zero_capacity_would_block. Qed.
+
+Example C02_bytestream_zero_capacity_regression : forall fuel,
+  rel_inner true ctl_none true (S fuel) pending_s no_kern [[]; []] [] = Some (pending_s, no_kern, [], RWouldBlock).
+Proof. exact zero_capacity_regression. Qed.
